@@ -248,3 +248,4 @@ def check(run):
     run.assumptions.append("non-overridden renderers are literally the same code for the three backends (trait default methods)")
     run.assumptions.append("per-dialect meaning of the shared text: precedence (C05), literals (C03), identifiers (C04), keyword tables (C07/C08)")
     run.assumptions.append("NOT decided: that the three engines return identical results (needs execution)")
+    run.delegate("C05", "the same expression tree must group the same way under each dialect's own precedence table", only_rules={"R4", "R5"})
